@@ -113,6 +113,42 @@ CLAIMED = {
                 "operators (1 % 0, ord(''), 'abc'['x'], ...) are outside the "
                 "claim; defects there are neither detected nor listed.",
     },
+    "C09": {
+        "ref": "DESIGN.md §4.2",
+        "technique": "deterministic simulation: secure interpreter inside a "
+                     "simulated OS that records every attempted effect; "
+                     "complete sweeps plus seeded sessions interleaved with "
+                     "a non-secure instance",
+        "text": "The simulated OS is the observer: every open/stat/listdir/"
+                "mkdir/remove/rename/copy/spawn is an event attributed to "
+                "the interpreter instance that was running, a canary tree is "
+                "compared before and after, and a CPython audit hook catches "
+                "accesses that bypass the seams. Enumerated completely in "
+                "every run, in the legacy and non-legacy configuration: "
+                "every native name the binder knows x {no alias, fresh "
+                "alias, alias of an existing secure name, alias run} x 12 "
+                "path-like/command-like call shapes; every symbol of every "
+                "bundled module x 4 import forms x call shapes; every "
+                "syntactic binding form applied to checkerlang_secure_mode "
+                "(also through eval/parse and from inside user modules) "
+                "followed by the OS-touching natives and a behavioural read "
+                "of the flag from a freshly loaded module; a crawl of all "
+                "function values reachable from the environments. On top, "
+                "seeded sessions mix all of these with failing calls, "
+                "faulted requires and step faults on a secure instance "
+                "interleaved (either creation order) with a non-secure "
+                "instance doing real file/process work in the same process. "
+                "Oracle: the secure instance causes no event outside module-"
+                "source reads, canary unchanged, flag still TRUE, no script "
+                "runner. The sweeps are exhaustive over what the current "
+                "tree defines; the sessions are evidence, not proof.",
+        "note": "Trusted: every OS access of the interpreter goes through "
+                "the rebinding seams or raises a CPython audit event; the "
+                "call shapes trigger an effect whenever an OS-touching "
+                "built-in is reachable (checked by mutants). Reading "
+                "environment variables is not counted as file access. A "
+                "rejection of any kind counts as denied.",
+    },
     "C10": {
         "ref": "DESIGN.md §4.3",
         "technique": "deterministic simulation: seeded session histories "
@@ -140,7 +176,6 @@ CLAIMED = {
 }
 
 PENDING = {
-    "C09": "claimed in DESIGN.md §4.2; check not built yet",
 }
 
 
